@@ -632,8 +632,12 @@ def _open_roles(ctx: Context):
         def le64len(x):
             return ("call", ("glob", "struct.pack"), (("const", SPEC.MAC_LENGTH_STRUCT), ("call", ("glob", "len"), (x,), ())), ())
 
+        def le64len2(x):  # the same bytes through a precompiled Struct("<Q").pack
+            return ("call", ("const", StructMethod(StructConst(SPEC.MAC_LENGTH_STRUCT), "pack")), (("call", ("glob", "len"), (x,), ()),), ())
+
         want = ("add", (aad, pad(aad), ct, pad(ct), le64len(aad), le64len(ct)))
-        ok = aad[0] == "param" and aad not in (comb, nonce) and mac == want
+        want2 = ("add", (aad, pad(aad), ct, pad(ct), le64len2(aad), le64len2(ct)))
+        ok = aad[0] == "param" and aad not in (comb, nonce) and mac in (want, want2)
         _judge(ck, "C18.T2", ok, [mac], "open: MAC input = aad | pad16 | ciphertext | pad16 | LE64(len aad) | LE64(len ciphertext), ciphertext = combined[:-4]",
                f"{fk}:mac-input", f"open: the MAC input is {show(mac, 300)}; RFC 7539 2.8 wants aad, pad, ciphertext (= combined text "
                f"without its last {SPEC.TAG_BYTES} bytes), pad, LE64(len(aad)), LE64(len(ciphertext))", loc)
